@@ -357,9 +357,15 @@ def make_doctest(spec):
     def td(dt):
         do_part(holder, ["tearDown"], spec["tearDown"])
     src = ">>> _body()\n"
+
+    def _fail():
+        # an example whose output differs from the expected (empty) one; with "once" only the first time it runs
+        if spec["body"].get("once") and _attempt("once", (spec["id"], "['body']")) > 0:
+            return
+        print("output the doctest does not expect")
     if spec["body"].get("exc") == "fail":
-        src += ">>> 1 + 1\n3\n"
-    globs = {"_body": lambda: do_part(holder, ["body"], body)}
+        src += ">>> _fail()\n"
+    globs = {"_body": lambda: do_part(holder, ["body"], body), "_fail": _fail}
     dt = doctest.DocTestParser().get_doctest(src, globs, "wtests.T%d.t%d" % (spec["id"], spec["id"]), "wtests.py", 0)
 
     class DT(doctest.DocTestCase):
